@@ -1,5 +1,6 @@
 import MicroHttp.Props.C06
 import MicroHttp.Props.C06IO
+import MicroHttp.Props.Tables
 #print axioms MicroHttp.C06.pending_iff
 #print axioms MicroHttp.C06.enqueue_unsent
 #print axioms MicroHttp.C06.tryWrite_spec
@@ -7,3 +8,4 @@ import MicroHttp.Props.C06IO
 #print axioms MicroHttp.C06.read_preserves_unsent
 #print axioms MicroHttp.C06.pop_preserves_unsent
 #print axioms MicroHttp.C06.history_prefix_io
+#print axioms MicroHttp.Tables.pending_write_pred
